@@ -53,3 +53,21 @@ Example C06_consistency_needed :
   let c1 := o_cache _ _ (unwind_frame_x u (cache_new rule) (IP 60) rg m) in   (* caches the uncovered rule for 60 *)
   o_res _ _ (unwind_frame_x u c1 (RA 61) rg m) = o_res _ _ (unwind_frame_x u (cache_new rule) (RA 61) rg m).
 Proof. vm_compute. reflexivity. Qed.
+
+(* ---------- the tie of the error classification to the source ----------
+   Which callback errors are "caused by this call's registers or stack" (the fallback runs but is NOT cached: CbErrV in
+   the model, fix for S7) is decided in error.rs by UnwinderError::depends_on_registers_or_stack. Its `true` arms are
+   regenerated from the source on every run (Generated/FeatConsts.v); this is the list the model's CbErrV sites
+   transcribe (X86Dwarf.generic_x86, A64Dwarf.generic_a64, Pe.pe_step). A change of that function breaks this
+   statement before any input is run. *)
+From FH Require Import FeatConsts.
+From Coq Require Import String List.
+Import ListNotations.
+Example C06_state_dependent_errors_as_modelled :
+  SRC_STATE_DEPENDENT_ERRORS =
+    Some [(None, "Dwarf::StackPointerMovedBackwards"%string); (None, "Dwarf::DidNotAdvance"%string);
+          (None, "Dwarf::CouldNotRecoverCfa"%string); (None, "Dwarf::CouldNotRecoverReturnAddress"%string);
+          (None, "Dwarf::CouldNotRecoverFramePointer"%string);
+          (Some FPe, "Pe::MissingStackData"%string); (Some FPe, "Pe::StackPointerMovedBackwards"%string);
+          (Some FPe, "Pe::DidNotAdvance"%string)].
+Proof. reflexivity. Qed.
